@@ -13,7 +13,7 @@ import (
 // verifNewVolume builds a Volume directly (no directory scan / load): in-memory data file holding a
 // real super block, the real in-memory needle map over an index file in the scratch directory.
 func verifNewVolume(dir string, ttl *needle.TTL, version needle.Version) *Volume {
-	v := &Volume{Id: 1, dir: dir, dirIdx: dir, volumeInfo: &volume_server_pb.VolumeInfo{}}
+	v := &Volume{Id: 1, dir: dir, dirIdx: dir, volumeInfo: &volume_server_pb.VolumeInfo{}, location: &DiskLocation{Directory: dir, IdxDirectory: dir}}
 	v.SuperBlock = super_block.SuperBlock{Version: version, ReplicaPlacement: &super_block.ReplicaPlacement{}, Ttl: ttl}
 	dat := &backend.VerifMemFile{FileName: dir + "/1.dat"}
 	dat.WriteAt(v.SuperBlock.Bytes(), 0)
